@@ -228,6 +228,23 @@ def check_linear(c):
         res.check(abs(sv - integ) <= T * (b - a) ** d * 10, 'linear.sum', case, lambda: 'func_sum %.12g vs %.12g' % (sv, integ), tags)
         Z = teneva.func_gets(A)
         res.check(np.abs(ref.dense(Z) - ref.dense(cores)).max() <= T, 'linear.inverse', case, 'func_gets(func_int(Y)) != Y', tags)
+        # extreme magnitudes of the data (any absolute tolerance hidden in the code shows here): everything scales exactly
+        for sc in (2.0 ** -100, 2.0 ** 100):
+            res.ev()
+            cs_ = [cores[0] * sc] + cores[1:]
+            As = teneva.func_int(cs_)
+            gs = teneva.func_get(X, As, a, b)
+            res.check(np.abs(gs / sc - got).max() <= 1e-13 * max(1.0, np.abs(got).max()), 'linear.scaled.get', dict(case, scale=sc),
+                      lambda: 'data scaled by %g: func_get does not scale (dev %.3e)' % (sc, np.abs(gs / sc - got).max()), tags)
+            ss = teneva.func_sum(As, a, b)
+            res.check(abs(ss / sc - sv) <= 1e-13 * max(1.0, abs(sv)) + T * (b - a) ** d, 'linear.scaled.sum', dict(case, scale=sc), 'func_sum does not scale', tags)
+            Zs = teneva.func_gets(As, 3)
+            Z1 = teneva.func_gets(A, 3)
+            res.check(np.abs(ref.dense(Zs) / sc - ref.dense(Z1)).max() <= 1e-13 * max(1.0, np.abs(ref.dense(Z1)).max()), 'linear.scaled.gets', dict(case, scale=sc),
+                      'func_gets does not scale', tags)
+            Fd = teneva.func_int_full(ref.dense(cs_))
+            res.check(np.abs(Fd / sc - ref.dense(A)).max() <= 1e-12 * max(1.0, np.abs(ref.dense(A)).max()), 'linear.scaled.full', dict(case, scale=sc),
+                      'func_int_full does not scale', tags)
         # additivity / homogeneity of the coefficient transform
         A2 = teneva.func_int([2.5 * cores[0]] + cores[1:])
         res.check(np.abs(ref.dense(A2) - 2.5 * ref.dense(A)).max() <= T, 'linear.homogeneous', case, 'func_int not homogeneous', tags)
